@@ -8,7 +8,7 @@ import Mathlib.Tactic.LinearCombination
 import Mathlib.Algebra.Order.Field.Basic
 
 /-! Helper lemmas about the plot model (C17), over any linearly ordered field. -/
-namespace SF
+namespace SF.Plt
 variable {K : Type} [Field K] [LinearOrder K] [IsStrictOrderedRing K]
 
 theorem thousand_eq : (thousand : K) = 1000 := by
@@ -521,4 +521,4 @@ theorem varAperture_knot (lg exp10 : K → K) (hlg : ∀ x, 0 < x → exp10 (lg 
   rw [hlg x hxpos]
   exact clampK_id _ _ _ (hge x hx) (hle x hx)
 
-end SF
+end SF.Plt
